@@ -3003,6 +3003,15 @@ func (a *Association) processSelectiveAck(selectiveAckChunk *chunkSelectiveAck) 
 
 // The caller should hold the lock.
 func (a *Association) onCumulativeTSNAckPointAdvanced(totalBytesAcked int) {
+	// A performed outgoing reset matters to the skip reports only while chunks at or
+	// below its last TSN can still be outstanding. Kept for ever, the entry would look
+	// "ahead" again once the TSN space has moved on by half its size.
+	for id, last := range a.outgoingResetsPerformed {
+		if sna32LTE(last, a.cumulativeTSNAckPoint) {
+			delete(a.outgoingResetsPerformed, id)
+		}
+	}
+
 	// RFC 4960, sec 6.3.2.  Retransmission Timer Rules
 	//   R2)  Whenever all outstanding data sent to an address have been
 	//        acknowledged, turn off the T3-rtx timer of that address.
